@@ -56,6 +56,10 @@ pub struct Prog {
     #[serde(default)]
     pub trks: Vec<String>,
     #[serde(default)]
+    pub tls: Vec<String>,
+    #[serde(default)]
+    pub lzs: Vec<String>,
+    #[serde(default)]
     pub hmap: HashMap<String, String>,
     #[serde(default)]
     pub h0: Vec<String>,
@@ -77,6 +81,90 @@ thread_local! {
     pub static LOG: RefCell<Vec<Ev>> = RefCell::new(Vec::new());
     /// Payload drop counters of the iteration in progress, per arc.
     pub static DROPS: RefCell<Vec<SArc<StdAtomicUsize>>> = RefCell::new(Vec::new());
+}
+
+// ---------------------------------------------------------------- statics (C17)
+// Init / drop counters live in std thread-locals of the OS thread running the model.
+std::thread_local! {
+    /// [T0 init, T0 drop, T1 init, T1 drop, Z0 init, Z0 drop, Z1 init, Z1 drop]
+    pub static STAT: [StdAtomicUsize; 8] = Default::default();
+    /// cells the lazy initialisers write (set per iteration)
+    static LZ_CELLS: RefCell<[Option<SArc<US<loom::cell::UnsafeCell<usize>>>>; 2]> = RefCell::new([None, None]);
+}
+fn stat_add(i: usize) -> usize {
+    STAT.with(|s| s[i].fetch_add(1, StdOrd::SeqCst))
+}
+pub struct TlVal {
+    k: usize,
+    cnt: std::cell::Cell<usize>,
+}
+impl TlVal {
+    fn new(k: usize) -> TlVal {
+        stat_add(2 * k);
+        TlVal { k, cnt: std::cell::Cell::new(0) }
+    }
+    fn bump(&self) -> usize {
+        let c = self.cnt.get();
+        self.cnt.set(c + 1);
+        c
+    }
+}
+impl Drop for TlVal {
+    fn drop(&mut self) {
+        stat_add(2 * self.k + 1);
+    }
+}
+pub struct LzVal {
+    k: usize,
+    id: usize,
+}
+impl LzVal {
+    fn new(k: usize) -> LzVal {
+        let id = stat_add(4 + 2 * k);
+        let cell = LZ_CELLS.with(|c| c.borrow()[k].clone());
+        if let Some(c) = cell {
+            c.get().with_mut(|_| ());
+        }
+        if k == 1 {
+            // a scheduling point inside the initialiser: another thread may race on first access
+            loom::thread::yield_now();
+        }
+        LzVal { k, id }
+    }
+}
+impl Drop for LzVal {
+    fn drop(&mut self) {
+        stat_add(4 + 2 * self.k + 1);
+    }
+}
+loom::thread_local! {
+    static TL0: TlVal = TlVal::new(0);
+    static TL1: TlVal = TlVal::new(1);
+}
+loom::lazy_static! {
+    static ref LZ0: LzVal = LzVal::new(0);
+    static ref LZ1: LzVal = LzVal::new(1);
+}
+fn tl_bump(name: &str) -> usize {
+    match name {
+        "T0" => TL0.with(|v| v.bump()),
+        "T1" => TL1.with(|v| v.bump()),
+        n => panic!("harness: unknown thread-local {:?}", n),
+    }
+}
+fn tl_nest(outer: &str, inner: &str) -> usize {
+    match outer {
+        "T0" => TL0.with(|v| { v.bump(); tl_bump(inner) }),
+        "T1" => TL1.with(|v| { v.bump(); tl_bump(inner) }),
+        n => panic!("harness: unknown thread-local {:?}", n),
+    }
+}
+fn lz_get(name: &str) -> usize {
+    match name {
+        "Z0" => LZ0.id,
+        "Z1" => LZ1.id,
+        n => panic!("harness: unknown lazy static {:?}", n),
+    }
 }
 
 fn log(t: usize, pc: usize, res: Option<i64>) {
@@ -211,6 +299,13 @@ impl Sh {
             }
         }
         DROPS.with(|x| *x.borrow_mut() = drops);
+        STAT.with(|s| for c in s.iter() { c.store(0, StdOrd::SeqCst); });
+        LZ_CELLS.with(|c| {
+            let mut c = c.borrow_mut();
+            for k in 0..2 {
+                c[k] = idx.get(&format!("c_Z{}", k)).map(|i| cells[*i].clone());
+            }
+        });
         Sh {
             prog,
             idx,
@@ -495,6 +590,9 @@ fn run_thread(sh: SArc<Sh>, t: usize) {
             }
             "tdrop" => drop(sh.trks.get().remove(&ins.o)),
             "tforget" => std::mem::forget(sh.trks.get().remove(&ins.o)),
+            "tlwith" => res = Some(tl_bump(&ins.o) as i64),
+            "tlnest" => res = Some(tl_nest(&ins.o, &ins.o2) as i64),
+            "lzget" => res = Some(lz_get(&ins.o) as i64),
             "br" => {
                 if regs[ins.r - 1] != ins.v {
                     next = pc + 1 + ins.w as usize;
